@@ -69,9 +69,9 @@ def peer_table(sent: list[tuple], table: dict | None = None) -> dict:
     return t
 
 
-def run_impl(ops: list[list], cache_on: bool = True) -> dict:
+def run_impl(ops: list[list], cache_on: bool = True, grouped: bool = True) -> dict:
     """Execute on the real code. Returns per-op outputs, cache/pending after every op, the oracle verdict."""
-    rig = ribrig.RibRig(cache_on)
+    rig = ribrig.RibRig(cache_on, grouped)
     outs, caches, pend = [], [], []
     table: dict = {}
     mark = 0
@@ -250,8 +250,8 @@ def shrink(ops: list[list], bad) -> list[list]:
     return cur
 
 
-def oracle_fails(ops: list[list], cache_on: bool = True) -> bool:
-    return not run_impl(ops, cache_on)['ok']
+def oracle_fails(ops: list[list], cache_on: bool = True, grouped: bool = True) -> bool:
+    return not run_impl(ops, cache_on, grouped)['ok']
 
 
 def load_corpus(prop: str) -> list[list[list]]:
@@ -272,16 +272,19 @@ def run(ctx: Ctx, session_ops: bool = False, prop: str = 'C04') -> None:
         'with generator steps (tick) interleaved; a case is non-trivial when at least one announce reached the wire and at least two different kinds of RIB operation occurred; '
         'distinct = distinct canonical op list (ids renamed by first appearance)'
     )
-    cases = [(c, 'corpus') for c in load_corpus(prop)]
+    cases = [(c, 'corpus', True) for c in load_corpus(prop)]
+    cases += [(c, 'corpus', False) for c in load_corpus(prop)]
     for i in range(ncases):
-        cases.append((gen_ops(rng, rng.randrange(2, maxlen), session_ops), 'random'))
+        # one case in four runs with `group-updates false` (one UPDATE per NLRI for every family)
+        cases.append((gen_ops(rng, rng.randrange(2, maxlen), session_ops), 'random', rng.random() >= 0.25))
     seen_fail: set = set()
-    for ops, origin in cases:
+    for ops, origin, grouped in cases:
         if ctx.time_left() < 0:
             ctx.notes.append(f'budget reached after {ctx.evaluations} cases')
             break
-        impl = run_impl(ops)
+        impl = run_impl(ops, True, grouped)
         ctx.evaluations += 1
+        ctx.count('group-updates:' + ('true' if grouped else 'false'))
         for op in ops:
             ctx.count('op:' + op[0])
         ctx.count('len:%d-%d' % (len(ops) // 10 * 10, len(ops) // 10 * 10 + 9))
@@ -294,25 +297,25 @@ def run(ctx: Ctx, session_ops: bool = False, prop: str = 'C04') -> None:
             diff = compare(ops, impl, model)
             if diff:
                 ctx.count('disagreement')
-                small = shrink(ops, lambda c: compare(c, run_impl(c), run_model(c)) is not None) if len(ctx.disagreements) < 3 else ops
-                ctx.disagreements.append(Disagreement('rib', {'ops': small}, None, compare(small, run_impl(small), run_model(small)) or diff))
+                small = shrink(ops, lambda c: compare(c, run_impl(c, True, grouped), run_model(c)) is not None) if len(ctx.disagreements) < 3 else ops
+                ctx.disagreements.append(Disagreement('rib', {'ops': small, 'grouped': grouped}, None, compare(small, run_impl(small, True, grouped), run_model(small)) or diff))
         if not impl['ok']:
             ctx.count('oracle-fail')
-            small = shrink(ops, oracle_fails) if len(seen_fail) < 40 else ops
+            small = shrink(ops, lambda c: oracle_fails(c, True, grouped)) if len(seen_fail) < 40 else ops
             canon = canon_ops(small)
             key = json.dumps(canon)
             if key in seen_fail:
                 continue
             seen_fail.add(key)
-            res = run_impl(small)
+            res = run_impl(small, True, grouped)
             what = res['error'] or f'after drain the peer table {res["table"]} differs from the reported Adj-RIB-Out {res["cache"]}'
-            ctx.failures.append(Failure('rib-history', canon, {'ops': small, 'cache_on': True}, what))
+            ctx.failures.append(Failure('rib-history', canon, {'ops': small, 'cache_on': True, 'grouped': grouped}, what))
 
 
 def replay(path: str) -> int:
     data = json.loads(open(path).read())
     ops = data['replay']['ops']
-    res = run_impl(ops, data['replay'].get('cache_on', True))
+    res = run_impl(ops, data['replay'].get('cache_on', True), data['replay'].get('grouped', True))
     print('ops   :', ops)
     print('sent  :', [ribrig.show_ev(e) for e in res['sent']])
     print('peer  :', res['table'])
